@@ -36,5 +36,9 @@ CHECKS = {
         text="Lean transcription of SDCompact::Packer/Unpacker (cursor, row prefixes, unknown-count marker; every .at() an explicit oob outcome) with the structural predicate compat as specification; unbounded theorems by mutual structural induction: round trip (under the explicit no-marker hypothesis; the unrestricted statement is refuted in the model by a 10^7-element witness), no out-of-range access / no fault for any table and any well-formed type, every unpacked value is compatible. Tie: typed values, mutated and ragged tables, exhaustive small tables compared cell by cell with the real Packer/Unpacker; every value the implementation unpacks is re-checked with the Lean compat.",
         note="Latent defect proved on the model only (a set of exactly unknownCount = 10 000 000 elements followed by a sibling does not round-trip); too large to replay under the sanitizer harness, recorded in DESIGN.md. Tuple arity 0/1 is only reachable through the raw Typification constructor (model and code agree).",
     ),
+    "C13": dict(
+        text="Lean model of the selection logic of OpExtractBasis / OpMaxPart (CheckCst, IsCorrectlyDefined, the repeated list scan, SortSubset, backward closure) over an abstract source (ordered constituents with resolved inputs); specification: least closed set (inductive InMax) and dependency ancestors (inductive DepOf); statements: exact membership, order preserved (sublist), closed under dependencies — proved or listed partial in the evidence; a closed counterexample theorem records the pinned single-scan defect. Tie: generated schemas (random dependency shapes, list orders shuffled by admissible moves, incorrect members, all kinds) x all selections of size 1, sampled sizes 2-3, empty and foreign selections; the result uid list is compared with the model and with an independent Kleene-iteration oracle; closure, order and status/type preservation up to alias renumbering are judged on the implementation's result.",
+        note="The copy (bulk InsertCopy + ResetAliases) is not modelled here (C08/C09). The single-scan defect was repaired by a fix: commit.",
+    ),
 }
-NOT_APPLICABLE = {p: PENDING for p in ["C01","C02","C03","C04","C05","C06","C08","C10","C12","C13","C15","C17","C18","C19"]}
+NOT_APPLICABLE = {p: PENDING for p in ["C01","C02","C03","C04","C05","C06","C08","C10","C12","C15","C17","C18","C19"]}
